@@ -13,6 +13,8 @@ GAPS = [0, 0, 0.5, 1, 2]
 def cases(draw, tier):
     big = tier == 'thorough'
     item = [0]
+    special = draw(st.permutations([None, None, 0, '']))[:draw(st.integers(0, 3))]
+    special = [x for i, x in enumerate(special) if x is not None or None not in special[:i]]
     start = draw(st.sampled_from([0, 0, 0, -2, -1.5, 3]))
 
     def sl():
@@ -28,6 +30,8 @@ def cases(draw, tier):
             if r < 7:
                 item[0] += 1
                 steps.append({'op': 'cput', 's': 0, 'v': item[0]})
+                if special and draw(st.integers(0, 3)) == 0:
+                    steps[-1]['v'] = special.pop()       # falsy messages are messages, too
                 if draw(st.integers(0, 5)) == 0:
                     steps[-1]['defer'] = draw(st.sampled_from([0, 0, 0.5, 1, 2]))
             elif r < 9:
@@ -35,6 +39,9 @@ def cases(draw, tier):
             elif r < 11:
                 steps.append({'op': 'instant'})
             else:
+                if special and draw(st.booleans()):
+                    # the last message before the close is a falsy one, close follows in the same turn
+                    steps.append({'op': 'cput', 's': 0, 'v': special.pop()})
                 steps.append({'op': 'cclose', 's': 0})
         return {'name': 'p%d' % i, 'steps': steps}
 
@@ -47,6 +54,9 @@ def cases(draw, tier):
             elif r < 7:
                 steps.append({'op': 'citer', 's': 0, 'n': draw(st.sampled_from([None, None, 1, 2, 3])),
                               'gap': draw(st.sampled_from([None, None, 0.5, 1, 2, 'tick']))})
+                if draw(st.integers(0, 4)) == 0:
+                    # a second subscription of the same activity while it is iterating
+                    steps[-1]['body'] = [{'op': 'cget', 's': 0}] if draw(st.booleans()) else [{'op': 'citer', 's': 0, 'n': draw(st.integers(1, 2))}]
             elif r < 9:
                 steps.append(sl())
             else:
@@ -55,6 +65,31 @@ def cases(draw, tier):
                               'body': [{'op': 'citer', 's': 0, 'n': None}]})
         return {'name': 'c%d' % i, 'steps': steps}
 
+    if draw(st.integers(0, 7)) == 0:
+        # one-shot waiters and an iterating consumer; the last message (any value, falsy ones included) is followed by
+        # close() in the same turn
+        last = draw(st.sampled_from([None, None, 0, '', False, 7]))
+        pre = [{'op': 'cput', 's': 0, 'v': 100 + j} for j in range(draw(st.integers(0, 2)))]
+        T = start + draw(st.sampled_from([1, 1.5, 2, 3]))
+        prod = {'name': 'p0', 'steps': [{'op': 'sleep', 'd': 0.5}] + pre + [{'op': 'at_ge', 't': T}, {'op': 'cput', 's': 0, 'v': last}]}
+        # close() by another activity that gets its turn in the same time step, right after (or before) the put
+        closer = {'name': 'p1', 'steps': [{'op': 'instant'} for _ in range(draw(st.integers(0, 2)))] +
+                  [{'op': 'at_ge', 't': T}] + [{'op': 'instant'} for _ in range(draw(st.integers(0, 1)))] + [{'op': 'cclose', 's': 0}]}
+        cons = []
+        for j in range(draw(st.integers(1, 3))):
+            cons.append({'name': 'c%d' % j, 'steps': [{'op': 'sleep', 'd': draw(st.sampled_from([0, 0, 0.5, 1, 2, 3]))}] +
+                         [{'op': 'cget', 's': 0} for _ in range(draw(st.integers(1, 3)))]})
+        cons.append({'name': 'c9', 'steps': [{'op': 'citer', 's': 0, 'n': None, 'gap': draw(st.sampled_from([None, 0.5]))}]})
+        kids = [cons[i] for i in draw(st.permutations(list(range(len(cons)))))]
+        kids.insert(draw(st.integers(0, len(kids))), prod)
+        kids.insert(draw(st.integers(0, len(kids))), closer)
+        prog = {'start': start, 'objs': {'channels': 1, 'flags': 1}, 'roots': [
+            {'name': 'r0', 'steps': [{'op': 'scope', 'name': 'S', 'children': kids, 'body': [], 'catch': True}]},
+            {'name': 'fin', 'steps': [{'op': 'at_ge', 't': 500}, {'op': 'cclose', 's': 0}, {'op': 'cget', 's': 0}]}]}
+        targets = [k['name'] for k in kids if k['name'].startswith('c')]
+        return {'prog': prog, 'targets': targets, 'ctl_sweep': False,
+                'faults': draw(st.lists(st.fixed_dictionaries({'k': st.integers(0, 60), 'target': st.sampled_from(targets),
+                                                               'token': st.just([1])}), max_size=2))}
     kids = [producer(i) for i in range(draw(st.integers(1, 2)))] + \
            [consumer(i) for i in range(draw(st.integers(1, 4)))]
     kids = [kids[i] for i in draw(st.permutations(list(range(len(kids)))))]
